@@ -35,6 +35,8 @@ import common  # noqa: E402
 from common import RUSTFMT, Run, Scratch, base_env, parallel_map, require_bins  # noqa: E402
 
 PROP = "C20"
+# mutation demonstrations only: judge another build of the subject (default: the build made by ./check)
+RUSTFMT = os.environ.get("C20_RUSTFMT_BIN") or RUSTFMT
 STRACE = shutil.which("strace", path="/usr/local/bin:/usr/bin:/bin") or "strace"
 TRACE = "trace=%file,%desc"
 ERRNOS = ["EIO", "ENOSPC", "EACCES"]
@@ -443,10 +445,12 @@ def verify_replay(parent_log, child, faults):
 
 
 def next_faults(res, faults, kinds):
-    """Fault lists extending `faults` by one fault at every later mutating call of run `res`."""
+    """Fault lists extending `faults` by one fault at every later mutating call of run `res`.
+
+    Returns (fault lists, {reason: number of fault lists strace cannot express})."""
     log = res["log"]
     start = faults[-1]["ord"] if faults else 0
-    out, skipped = [], 0
+    out, skipped = [], {}
     for i in range(start, len(log.muts)):
         c = log.muts[i]
         for kind in kinds:
@@ -461,7 +465,8 @@ def next_faults(res, faults, kinds):
                     if sub:
                         f["via"] = (sub[-1].name, sub[-1].nth)
                 if inject_args(fl) is None:
-                    skipped += 1
+                    why = "kill_after_error_on_same_syscall_name_no_call_between" if kind == "KILL" else "different_errnos_or_uneven_spacing_on_same_syscall_name"
+                    skipped[why] = skipped.get(why, 0) + 1
                     continue
             out.append(fl)
     return out, skipped
@@ -586,7 +591,7 @@ def explore(argv_fn, inp, refs, thorough, max_depth=None):
         raise Machinery("recording run was killed")
     results = [([], rec)]
     frontier = [([], rec)]
-    skipped = 0
+    skipped = {}
     depth = 1
     while frontier and (max_depth is None or depth <= max_depth):
         jobs = []
@@ -595,7 +600,8 @@ def explore(argv_fn, inp, refs, thorough, max_depth=None):
             if not kinds:
                 continue
             fls, sk = next_faults(res, faults, kinds)
-            skipped += sk
+            for why, n in sk.items():
+                skipped[why] = skipped.get(why, 0) + n
             jobs += [(fl, res["log"]) for fl in fls]
         jobs.sort(key=lambda j: ([f["ord"] for f in j[0]], [KIND_RANK[f["kind"]] for f in j[0]]))
 
@@ -743,8 +749,9 @@ def check_input(run, inp, mode, explored, states, contrast):
     """Bookkeeping and oracle for one explored (input, mode); returns the violation records."""
     judged = MODES[mode][1]
     refs, results, skipped = explored
-    run.count("inexpressible_fault_sequences_skipped", skipped)
-    if skipped:
+    for why, n in skipped.items():
+        run.count("inexpressible_fault_sequences_skipped", n)
+        run.count("skipped_" + why, n)
         run.exhaustive = False
     rec = results[0][1]
     case = f"{inp['name']}/{mode}"
@@ -969,6 +976,11 @@ def main():
         run.extra["inputs"] = [i["name"] for i in inputs]
         run.extra["modes"] = modes
         run.extra["fault_kinds"] = KINDS
+        run.extra["exhaustive_note"] = (
+            "depth 1 (every crash point, every single failing operation, every input, every mode) is complete; "
+            "`exhaustive` is false only when some multi-fault sequences could not be expressed with strace "
+            "(one action per syscall name), counted in counters.skipped_*"
+        )
         run.extra["fault_depth"] = "thorough: all pairs of faults, triples EIO+EIO+{KILL,EIO}" if thorough else "all single faults; pairs EIO+{KILL,EIO}"
         run.extra["abstract_states_backup"] = [
             {"file_kind": k[0], "state": state_str(k[1]), "runs": v["count"], "first_reached_by": v["first"]} for k, v in sorted(states.items())
